@@ -50,8 +50,13 @@ def gen_scenarios(rng, n):
         r = rng.random()
         d = rng.choice(DELTAS) if rng.random() < 0.75 else rng.choice([-600, -100, 17, 200, 1000, 3 * LIMIT])
         if r < 0.6:
-            form = rng.choice(["uri", "uri", "hdr", "hdr", "hdr2", "nolf"])
+            form = rng.choice(["uri", "uri", "hdr", "hdr", "hdr2", "nolf", "fold", "fold", "wsp", "wsp", "plain"])
+            if form in ("fold", "wsp", "plain"):
+                # received head bytes from limit-400 to limit+600; mostly everything in one read
+                d = rng.choice([rng.randrange(-400, 601), rng.randrange(1, 601), rng.choice(DELTAS)])
             ncut = rng.choice([0, 0, 1, 2, 3])
+            if form in ("fold", "wsp", "plain") and rng.random() < 0.5:
+                ncut = 0
             cuts = sorted(round(rng.random(), 3) for _ in range(ncut))
             if ncut and rng.random() < 0.4:
                 cuts[rng.randrange(ncut)] = rng.choice([0.97, 0.999, 0.5])     # near the end / at the boundary region
@@ -85,6 +90,8 @@ def build_request(s, port, rid):
     line = b"GET " + base + ver + b"\r\n"
     fls = 3 + len(base) + 12
     want = max(LIMIT + d - fls, len(host) + 12)
+    if s["form"] in ("fold", "wsp", "plain"):
+        return line + shaped_block(s["form"], want, host, s.get("run", 38))
     if s["form"] == "hdr":
         fill = want - len(host) - len(b"X-Fill: \r\n") - 2
         block = host + b"X-Fill: " + b"f" * max(fill, 0) + b"\r\n\r\n"
@@ -101,6 +108,36 @@ def build_request(s, port, rid):
             i += 1
         block += b"\r\n"
     return line + block
+
+
+def shaped_block(shape, want, host=b"Host: x\r\n", run=38):
+    """a header block (incl. the empty line) of exactly `want` received bytes:
+       plain: one long field; fold: a field continued over many obs-fold lines (CRLF + run of SP/HTAB) which
+       unfoldMime() collapses to one SP each; wsp: whitespace-prefixed lines right after the start-line, which
+       cleanMimePrefix() drops"""
+    if shape == "plain":
+        return host + b"X-Fill: " + b"f" * max(want - len(host) - 10 - 2, 0) + b"\r\n\r\n"
+    if shape == "fold":
+        head = host + b"X-Folded: a"
+        tail = b"b\r\n\r\n"
+        room = want - len(head) - len(tail)
+        body = b""
+        while room - len(body) >= 3:
+            n = min(run, room - len(body) - 2)
+            body += b"\r\n" + (b" " * (n - 1) + b"\t" if n > 3 else b" " * n)
+        body += b"c" * (room - len(body))
+        return head + body + tail
+    # wsp
+    tail = host + b"\r\n"
+    room = want - len(tail)
+    body = b""
+    while room - len(body) >= 4:
+        n = min(run + 20, room - len(body) - 3)
+        body += b" " + b"w" * n + b"\r\n"
+    if room - len(body) > 0:
+        body = b" " + b"w" * (room - len(body)) + body[1:] if body else b""
+        tail = tail if body else host[:-2] + b"x" * room + b"\r\n\r\n"
+    return body + tail
 
 
 def cut(b, cuts):
@@ -210,9 +247,10 @@ def oracle(s, obs):
     if s["half"] == "req":
         b = b"".join(bytes.fromhex(x) for x in s.get("_segs", []))
         line, block = head_sizes(b)
-        if line > LIMIT or block > LIMIT:
+        complete = b"\r\n\r\n" in b or b"\n\n" in b
+        if line > LIMIT or block > LIMIT or (complete and line + 1 + block > LIMIT):
             if obs.startswith("fwd"):
-                return ("oracle:oversized-request-forwarded", "request line %d / header block %d bytes (limit %d) reached the origin"
+                return ("oracle:oversized-request-forwarded", "request line %d + header block %d received bytes (limit %d) reached the origin"
                         % (line, block, LIMIT))
             if obs not in ("rej 414", "rej 431"):
                 return ("oracle:oversized-request-status", "request line %d / header block %d bytes (limit %d) answered `%s`, not 414/431"
@@ -228,8 +266,32 @@ def oracle(s, obs):
 
 
 # ------------------------------------------------------------------ unit level: the real RequestParser around the limit
+def shaped_unit_case(rng, relaxed, limit, shape, total, segmode):
+    """request head with method+target+12+block = total received bytes, in the given shape"""
+    line = rng.choice([b"GET /a HTTP/1.1\r\n", b"POST /ab HTTP/1.0\r\n", b"GET /a HTTP/1.1\r\n"])
+    fls = len(line)
+    block = shaped_block(shape, max(total - fls, 14), b"Host: x\r\n", rng.choice([5, 17, 38]))
+    b = line + block + rng.choice([b"", b"", b"BODY"])
+    if segmode == 0:
+        segs = [b]                                     # everything in one read
+    elif segmode == 1:
+        segs = [b[:-len(b) + len(line) + len(block) - 2] or b, b[len(line) + len(block) - 2:]] if False else [b[:len(line) + len(block) - 2], b[len(line) + len(block) - 2:]]
+    elif segmode == 2:
+        segs = c21.split_at_interesting(rng, b)
+    else:
+        segs = c21.rand_split(rng, b)
+    return "rp.seg %d %d %s" % (relaxed, limit, " ".join(c21.hx(x) for x in segs if x) or "-")
+
+
 def gen_unit(rng, n):
     cases = []
+    # heads from limit-400 to limit+600 received bytes: plain, obs-folded, whitespace-prefixed; several segmentations
+    for _ in range(max(n // 4, 200)):
+        relaxed = 1 if rng.random() < 0.6 else 0
+        limit = rng.choice([512, 1024, 1024, 700])
+        shape = rng.choice(["plain", "fold", "fold", "wsp", "wsp"])
+        total = limit + rng.choice([rng.randrange(-400, 601), rng.randrange(0, 601), rng.choice([-2, -1, 0, 1, 2])])
+        cases.append(shaped_unit_case(rng, relaxed, limit, shape, total, rng.choice([0, 0, 1, 2, 3])))
     while len(cases) < n:
         relaxed = 1 if rng.random() < 0.6 else 0
         limit = rng.choice(c21.LIMITS_SMALL + [256, 300])
